@@ -8,7 +8,13 @@
    a pthread recursive mutex can be taken iff no other thread is between lock and unlock
    ([mutex_free]); memory is sequentially consistent (the code's write barrier / read barrier
    pair is not modelled); Py_InitializeEx, the module init function and the init code are
-   single steps; the GIL is handed over fairly between threads that run Python. *)
+   single steps; the GIL is handed over fairly between threads that run Python.
+
+   [step] consults five facts that tools/props/c28.py reads from _embedding.h on every run
+   (C28/Gen.v): gen_switch_in_success, gen_init_exits, gen_guard_released_before_lock,
+   gen_zero_on_null, gen_fail_resets_org.  The proofs are about [cstep = core true true true true]
+   and are transferred to [step] by Proofs.step_cases / step_cstep, which only check when every
+   fact has the value of the code as it is. *)
 From Coq Require Import Arith List Bool.
 Import ListNotations.
 From Cffi Require Import C28.Gen C28.Model C28.Proofs C28.Proofs2 C28.Proofs3 C28.Proofs4 C28.Proofs5.
@@ -230,8 +236,9 @@ Proof.
       exfalso. apply Nat.succ_lt_mono, Nat.succ_lt_mono in Ht. inversion Ht.
     - repeat constructor. }
   assert (W : 18 * total_frames s = length rounds) by (vm_compute; reflexivity).
-  repeat split; try assumption; try (vm_compute; reflexivity).
-  apply (C28_single_library_terminates rounds 2 _ 0 Sg R). rewrite W. constructor.
+  split; [exact Sg|]. split; [vm_compute; reflexivity|]. split; [exact W|]. split; [exact R|].
+  split; [|vm_compute; reflexivity].
+  apply (C28_single_library_terminates rounds 2 _ 0 Sg R). change (18 * total_frames s <= length rounds). rewrite W. constructor.
 Qed.
 
 (* non-vacuity of [independent] with two libraries (C28_no_deadlock_independent_libraries,
@@ -261,9 +268,10 @@ Proof.
       exfalso. apply Nat.succ_lt_mono, Nat.succ_lt_mono in Ht. inversion Ht.
     - repeat constructor. }
   assert (W : weight s = length rounds) by (vm_compute; reflexivity).
-  repeat split; try assumption; try (vm_compute; reflexivity).
+  split; [exact S0|]. split; [exact S1|]. split; [exact Ind|]. split; [|split; [exact W|]].
+  2: split; [|split; [|vm_compute; reflexivity]].
   - intros l0 Sg. pose proof (Sg 0 (0, PCall) ltac:(rewrite S0; left; reflexivity)) as A.
     pose proof (Sg 1 (1, PCall) ltac:(rewrite S1; left; reflexivity)) as B. cbn in A, B. congruence.
   - apply (C28_no_deadlock_independent_libraries 2 _ Ind). exists 0. unfold busy. fold s. rewrite S0. reflexivity.
-  - apply (C28_independent_libraries_terminate rounds 2 _ Ind R). rewrite W. constructor.
+  - apply (C28_independent_libraries_terminate rounds 2 _ Ind R). change (weight s <= length rounds). rewrite W. constructor.
 Qed.
